@@ -101,7 +101,12 @@ class Version(object):
             return 1
 
     def __hash__(self):
-        return hash(str(self))
+        # Equal versions must hash equally (2 == 2.0 == 2.0.0): hash the
+        # numeric groups without trailing zero groups, plus the extra text.
+        nums = self.version_nums
+        while (len(nums) > 1) and (nums[-1] == 0):
+            nums = nums[:-1]
+        return hash((nums, self.version_extra))
 
     # Comparison operators
 
